@@ -28,7 +28,7 @@ META = {
                 "add_low_rank, nested square roots)", "rounding"],
     "assumptions": ["reals for floats", "x stays inside the enumerated grid cell (path condition from floor())"],
 }
-TIMEOUT_S = {"quick": 600, "thorough": 3000}
+TIMEOUT_S = {"quick": 600, "thorough": 900}
 
 
 def multitask_formula(S, kind, n1, n2):
